@@ -1,7 +1,7 @@
 import GuppyVerif.Spec.C01
 /-! Helper lemmas for C01: locals algebra, place-id geometry, evaluation of op lists, the
     `Holds` invariant (a place is stored as leaves only and denotes a value). -/
-namespace GuppyVerif.Wiring
+namespace GuppyVerif.DFWiring
 
 /-! ## locals -/
 @[simp] theorem Locals.set_apply (L : Locals) (p q : PlaceId) (w : Wire) :
@@ -166,4 +166,4 @@ theorem HasShapes.length : âˆ€ (vs : List Val) (ts : List Ty), HasShapes vs ts â
   | [], _ :: _, h => by simp [HasShapes] at h
   | _ :: _, [], h => by simp [HasShapes] at h
 
-end GuppyVerif.Wiring
+end GuppyVerif.DFWiring
